@@ -390,7 +390,11 @@ class WProc(ScriptedMixin, Process):
         return _perm_schema(self, schema)
 
     def initial_state(self, config=None):
-        return decode_value(self.spec.get('init') or {})
+        # the same stored object on every call, as a process that answers from
+        # its parameters does: whoever merges into it changes the process
+        if getattr(self, '_init_obj', None) is None:
+            self._init_obj = decode_value(self.spec.get('init') or {})
+        return self._init_obj
 
     def _script_update(self, k, timestep, states):
         # the update object handed out last time must not have been modified
